@@ -135,6 +135,15 @@ __CPROVER_assigns(g_polls_own_np, g_polls_own_hp, g_polls_lp, g_polls_foreign, g
 #endif
 
 #ifdef U_STATIC_GET_NEXT
+/* local_queue_scheduler::get_next_thread, the base class (contract as proved by steal.lqs.get_next_thread): polls the caller's own
+ * queue and, on a miss, queues of other workers in the NUMA masks -- it IGNORES its enable_stealing argument */
+static bool base_get_next_thread(struct lpqs *self, size_t num_thread, bool running, thread_id_ref *thrd, bool enable_stealing)
+{
+  (void) running; (void) thrd; (void) enable_stealing;
+  if (tq_poll(np_queue(self, num_thread))) return true;
+  if (nondet_bool()) return tq_poll(&g_q_np_other);
+  return false;
+}
 //@FUNC
 bool static_get_next_thread(struct lpqs *self, size_t num_thread, bool running, thread_id_ref *thrd, bool enable_stealing)
 __CPROVER_requires(POLL_PRE(self) && num_thread < self->num_queues_ && num_thread == g_me)
